@@ -121,7 +121,7 @@ class MapState:
 
 
 class State:
-    __slots__ = ('ghost', 'loops', 'frames', 'fmeta', 'objs', 'maps', 'zone', 'events', 'unwinding', 'depth',
+    __slots__ = ('aux', 'ghost', 'loops', 'frames', 'fmeta', 'objs', 'maps', 'zone', 'events', 'unwinding', 'depth',
                  'next_id', 'assumed', 'notes', 'keep', 'pairs')
 
     def __init__(self):
@@ -137,6 +137,7 @@ class State:
         self.assumed = ()
         self.notes = ()
         self.keep = frozenset()   # heap cells that model caller-owned memory (never collected)
+        self.aux = ()             # ((hi, lo, d), ...): auxiliary difference terms, d == hi - lo exactly (DESIGN 14.14)
         self.ghost = {}           # loop key -> (term, container ids): ghost counter of kept elements (count schemas)
         self.loops = ()           # keys of the loops this path is currently inside, outermost first
         self.pairs = {}           # opaque array tag -> (x, y, J) | None: pairwise-compared prefix (DESIGN §14.8)
@@ -158,6 +159,7 @@ class State:
         s.pairs = dict(self.pairs)
         s.loops = self.loops
         s.ghost = dict(self.ghost)
+        s.aux = self.aux
         return s
 
     def new_id(self, prefix):
